@@ -20,6 +20,7 @@ mod c11;
 mod c12;
 mod fmt;
 mod c16;
+mod c20;
 mod corpus;
 mod surfgen;
 mod lub;
@@ -56,6 +57,7 @@ fn main() {
         | "c11" => c11::run(&opts),
         | "c12" => c12::run(&opts),
         | "c16" => c16::run(&opts),
+        | "c20" => c20::run(&opts),
         | other => {
             eprintln!("unknown property {other}");
             2
